@@ -277,6 +277,9 @@ def load_graph(dot):
             m = _NODE_RE.match(line)
             if m and m.group(3):
                 inits.append(int(m.group(1)))
+    for k in adj:
+        adj[k].sort()
+    inits.sort()
     return inits, adj, n_edges
 
 
